@@ -82,7 +82,7 @@ DefTokens(d) ==
                \o << d.members[i].name, "=" >> \o d.members[i].lit \o << ";" >>])
          \o << SB, "}" >>
     [] d.k = "const" -> << "const", d.t, d.name, "=", d.lit, ";" >>
-    [] d.k = "import" -> << "import", Quote(d.path) >>
+    [] d.k = "import" -> << "import", IF "lit" \in DOMAIN d THEN d.lit ELSE Quote(d.path) >>
 
 ItemTokens(d) ==
   << SB >> \o (IF d.k = "import" THEN <<>> ELSE DocTokens(d.doc))
